@@ -203,6 +203,14 @@ pub trait RaftRoleState: Send + Sync + 'static {
     ) -> Result<()> {
         if self.commit_index() != new_commit_index {
             debug!("update_commit_index to: {:?}", new_commit_index);
+            #[cfg(feature = "verif-hooks")]
+            crate::verif::emit(crate::verif::VerifEvent::Commit {
+                node: self.node_id(),
+                leader: false,
+                term: self.current_term(),
+                old: self.commit_index(),
+                new: new_commit_index,
+            });
             self.shared_state_mut().commit_index = new_commit_index;
         }
         Ok(())
@@ -344,6 +352,14 @@ pub trait RaftRoleState: Send + Sync + 'static {
         ctx: &RaftContext<Self::T>,
     ) {
         // Read directly from local state machine without any consistency checks
+        #[cfg(feature = "verif-hooks")]
+        crate::verif::emit(crate::verif::VerifEvent::ReadServed {
+            node: self.node_id(),
+            path: "raft_cmd_non_leader",
+            policy: "eventual",
+            term: self.current_term(),
+            lease: 0,
+        });
         let results: Vec<KvEntry> = ctx
             .state_machine_handler()
             .read_from_state_machine(req.keys)
